@@ -18,7 +18,7 @@ func runFree(sc *Scenario, procs int) (msg string, timedOut bool) {
 	sc2.Gated = false
 	e := &env{sc: &sc2, calls: map[int]int{}, errs: map[int]*stageErr{}, envStop: make(chan struct{}), start: time.Now()}
 	var cancel context.CancelFunc
-	e.ctx, cancel = context.WithCancel(context.Background())
+	e.ctx, cancel = newCtx(sc)
 	e.cancel = cancel
 	defer cancel()
 	post := build(e)
